@@ -309,12 +309,17 @@ def model_lines(ops, limit0, refs):
                         mk['ct'] = len(lines) - 1
             lines.append('tg_keys')
             mk['tg_after_decode'] = len(lines) - 1
-            if op['op'] == 'encode' and not ref['decode'].startswith('err') and ref.get('enc_tg_key'):
-                lines.append('tg_get %d %s' % (limit, ref['enc_tg_key']))
-                if CACHE_MAXES[op['eslot']] is not None:
-                    ck = (ref.get('enc_ct_keys') or ['!nocompile'])[0]
-                    lines.append('ct_get %d %s' % (op['eslot'] + 5, ck))
-                    mk['ect'] = len(lines) - 1
+            if op['op'] == 'encode' and not ref['decode'].startswith('err'):
+                ek = ref.get('enc_tg_key') or (ref.get('enc_tg_keys_after') or [None])[0]
+                if ek:
+                    lines.append('tg_get %d %s' % (limit, ek))
+                    if CACHE_MAXES[op['eslot']] is not None:
+                        ck = (ref.get('enc_ct_keys') or ['!nocompile'])[0]
+                        lines.append('ct_get %d %s' % (op['eslot'] + 5, ck))
+                        mk['ect'] = len(lines) - 1
+                elif ref.get('encode', '').startswith('err'):
+                    # the encoder asked for tables that are not there: room is made first, nothing is added
+                    lines.append('tg_get %d !absent-tables-of-%s' % (limit, op['item'].replace(' ', '_')))
         lines.append('tg_keys')
         mk['tg'] = len(lines) - 1
         marks.append(mk)
@@ -405,6 +410,13 @@ def run(ctx):
                                 {'op': 'decode+observe', 'item': a, 'slot': slot_, 'seq': ['values']},
                                 {'op': 'encode', 'item': a, 'slot': slot_, 'eslot': slot_},
                                 {'op': 'encode', 'item': b2, 'slot': slot_, 'eslot': slot_}]
+        # a message naming tables that are not bundled: the decoder falls back, the encoder refuses; what the decoder found
+        # out must not reach the encoder (decode, then encode the same message: as in a process that decoded nothing)
+        for a in ['r:xunb-wmo-l%d' % rng.choice([4, 7])] + [i for i in ids if i.startswith('s:77-')][:1]:
+            if a in ids:
+                slot_ = rng.randrange(len(CACHE_MAXES))
+                pos = rng.randrange(len(ops) + 1)
+                ops[pos:pos] = [{'op': 'decode', 'item': a, 'slot': slot_}, {'op': 'encode', 'item': a, 'slot': slot_, 'eslot': slot_}]
         for nm in ('xunb-8201', 'xunb-1211'):
             a, b2 = 'r:%s-l%d' % (nm, rng.choice([4, 7])), 'r:%s-l%d' % (nm, rng.choice([1, 101]))
             if a in ids and b2 in ids:
